@@ -92,6 +92,33 @@ Theorem C13_missing_reverse_forces_rebuild :
 Proof. exact missing_reverse_forces_rebuild. Qed.
 Print Assumptions C13_missing_reverse_forces_rebuild.
 
+(** WorkspaceUpdate::Run as translated today writes var/last_build_time after
+    every schema update: a deployment killed at any point leaves the stamp as it
+    was, so DetectModifications answers at the next start-up exactly as it did
+    (or would have) before the killed deployment - the ordinary start-up path
+    deploys again *)
+Theorem C13_stamp_written_last : bf_stamp_last facts = true.
+Proof. reflexivity. Qed.
+Print Assumptions C13_stamp_written_last.
+
+Theorem C13_killed_deploy_is_redetected :
+  forall now xs old n latest,
+  (n < List.length (ws_effs (bf_stamp_last facts) now xs))%nat ->
+  stamp_after (firstn n (ws_effs (bf_stamp_last facts) now xs)) old = old /\
+  detect_modifications latest (stamp_after (firstn n (ws_effs (bf_stamp_last facts) now xs)) old)
+  = detect_modifications latest old.
+Proof. rewrite C13_stamp_written_last. exact killed_deploy_is_redetected. Qed.
+Print Assumptions C13_killed_deploy_is_redetected.
+
+(** written first instead, the stamp hides the unfinished work from start-up *)
+Theorem C13_stamp_first_refuted :
+  exists n, (n < List.length (ws_effs false 2000 [1%N; 2%N]))%nat /\
+    stamp_after (firstn n (ws_effs false 2000 [1; 2])) 0 = 2000 /\
+    detect_modifications 1500 0 = true /\
+    detect_modifications 1500 (stamp_after (firstn n (ws_effs false 2000 [1; 2])) 0) = false.
+Proof. exact stamp_first_refuted. Qed.
+Print Assumptions C13_stamp_first_refuted.
+
 (** non-vacuity: a workspace meeting the hypotheses deploys (six artefacts) *)
 Theorem C13_nonvacuous :
   wf_srcs demo_list_of demo_info_of demo_deps demo_srcs /\ snd (demo_deploy demo_srcs []) = true /\
